@@ -5,9 +5,9 @@ CONSTANTS D4,      \* code domain of the format 4 / format 0 maps
           G2, DL2  \* format 2: glyph values and idDelta values
 \* format 4: every map D4 -> G4 in five styles
 Maps4 == [D4 -> G4]
-Cases4 == {Enc4(M, st) : M \in Maps4, st \in {"delta", "single", "range0", "ranged", "mixed"}}
+Cases4 == {Enc4(M, st) : M \in Maps4, st \in {"delta", "single", "range0", "ranged", "rangew", "mixed"}}
 \* format 0: the maps on the codes below 256
-Cases0 == {Enc0(M) : M \in [{c \in D4 : c < 256} -> G4]}
+Cases0 == {Enc0(M) : M \in [{c \in D4 : c < 256} -> {g \in G4 : g < 256}]}    \* a byte table holds glyphs below 256
 \* format 2: single-byte codes 41 42 and two-byte codes 8140 8141 8240 8241 (two high bytes whose rows may coincide)
 D2 == {65, 66, 33088, 33089, 33344, 33345}
 Cases2 == {Enc2(M, d, sh) : M \in [D2 -> G2], d \in DL2, sh \in BOOLEAN}
